@@ -8,6 +8,7 @@
 import PvModel.Proofs.FDExact
 namespace Pv
 open State Term FD
+attribute [local instance] Mode.strict
 
 /-- some operand of the constraint is not (yet) a number -/
 def NotGround (σ : Subst) (c : Cst) : Prop := ∃ t ∈ operandsOf c, (walk σ t).isNum = false
@@ -135,6 +136,7 @@ end Pv
 
 namespace Pv
 open State Term FD
+attribute [local instance] Mode.strict
 
 theorem walk_keep_var {st s : State} (k : Keeps st s) {t : Term} {x : Nat} (hw : walk st.σ t = .var x)
     (hx : s.σ x = .var x) : walk s.σ t = .var x := by
@@ -183,7 +185,7 @@ include hrc hrs hrl
 theorem processDomain_all {st st' : State} {x : Term} {d : FD} {i : Nat} (w : WFS st) (f : Fr i st)
     (hd : WFI d) (hdv : WF d ∨ ∀ y, walk st.σ x = .var y → (st.dget y).isSome)
     (h : processDomain rc st x d = .ok st') : WFS st' ∧ Fr i st' ∧ Keeps st st' ∧ Q st st' := by
-  have r := processDomain_sem (I := fun _ => False) hrs (fun _ h => h.elim) w f.1 (x := x) hd hdv
+  have r := processDomain_sem (I := fun _ => False) hrs (fun _ h => h) w f.1 (x := x) hd hdv
   rw [h] at r
   exact ⟨r.1, f.step (processDomain_step hrc f.1 h), r.2.1, processDomain_q hrl w f.1 h⟩
 
@@ -232,6 +234,7 @@ end Pv
 
 namespace Pv
 open State Term FD
+attribute [local instance] Mode.strict
 
 theorem isNum_iff {t : Term} : t.isNum = true ↔ ∃ n, t = .val (.num n) := by
   cases t with
@@ -358,6 +361,7 @@ end Pv
 
 namespace Pv
 open State Term FD
+attribute [local instance] Mode.strict
 
 section WithRC
 variable {rc : State → Res State} (hrc : RcOK rc) (hrs : RcSem rc) (hrl : RcLive rc) (ord : Order)
@@ -446,8 +450,8 @@ theorem runDiseqFd_live {R : Nat → Prop} {i : Nat} {u v : Term} {st st' : Stat
   simp only [] at h
   split at h
   · rename_i ud vd hud hvd
-    have hwu : WF ud := (opDomain_walk_sem (I := fun _ => False) (fun _ h => h.elim) ws u hud).1
-    have hwv : WF vd := (opDomain_walk_sem (I := fun _ => False) (fun _ h => h.elim) ws v hvd).1
+    have hwu : WF ud := (opDomain_walk_sem (I := fun _ => False) (fun _ h => h) ws u hud).1
+    have hwv : WF vd := (opDomain_walk_sem (I := fun _ => False) (fun _ h => h) ws v hvd).1
     split at h
     · split at h
       · cases h
@@ -503,6 +507,7 @@ end Pv
 
 namespace Pv
 open State Term FD
+attribute [local instance] Mode.strict
 
 section WithRC
 variable {rc : State → Res State} (hrl : RcLive rc) (ord : Order)
@@ -598,6 +603,7 @@ end Pv
 
 namespace Pv
 open State Term FD
+attribute [local instance] Mode.strict
 
 theorem take_none_ids {st : State} {i : Nat} (h : (st.takeConstraint i).2 = none) : ∀ q ∈ st.store, q.1 ≠ i := by
   unfold State.takeConstraint at h
@@ -657,10 +663,10 @@ theorem snapshot_live : ∀ (snap : List (Nat × Cst)) (cur st' : State), WFS cu
             intro q hq; rw [f4] at hq
             exact ⟨(List.mem_filter.1 hq).1, by simpa using (List.mem_filter.1 hq).2⟩
           have w1 : WFS st1 := w.same hσ hd fun q hq => .inl (hst1 q hq).1
-          have hnd : c.isDistinct = false := w.nodist _ hm
+          have hnd : c.isDistinct = false := CstOK.strict (w.nodist _ hm)
           have hrun : runCst rc ord 4 p.1 c st1 = runCstBody rc ord (runCst rc ord 3) p.1 c st1 := rfl
           have body := runCstBody_sem hrc hrs ho (runCst_selfSem hrc hrs ho 3) (I := fun _ => False)
-            (fun _ h => h.elim) w1 fr hnd
+            (fun _ h => h) w1 fr (CstOK.of_not_distinct hnd)
           rw [← hrun, hstep] at body
           first
             | exact body.1
@@ -707,6 +713,7 @@ end Pv
 
 namespace Pv
 open State Term FD
+attribute [local instance] Mode.strict
 
 theorem dremove_ok {s : State} (w : WFS s) (hi : Inv s) (x : Nat) : WFS (s.dremove x) ∧ Inv (s.dremove x) :=
   ⟨⟨w.solved, (List.Sublist.map (fun q : Nat × FD => q.1) List.filter_sublist).nodup w.dnodup,
@@ -723,13 +730,13 @@ theorem extStep_live {snap cur s3 : State} (hsn : ∀ x d, snap.dget x = some d 
   · rename_i d hd
     have hwd := hsn _ _ hd
     obtain ⟨s2, e2, h⟩ := Res.bind_ok h
-    have r := processDomain_sem (I := fun _ => False) (runConstraintsF_sem ho rcFuel) (fun _ h => h.elim) w hi
+    have r := processDomain_sem (I := fun _ => False) (runConstraintsF_sem ho rcFuel) (fun _ h => h) w hi
       (x := p.2) (WFI.of_wf hwd) (.inl hwd)
     rw [e2] at r
     have i2 : Inv s2 := (processDomain_step (runConstraintsF_ok ord rcFuel) hi e2).inv
     split at h
     · obtain ⟨w2', i2'⟩ := dremove_ok r.1 i2 p.1
-      have r3 := runConstraintsF_sem ho (rcFuel + 1) (fun _ => False) _ (fun _ h => h.elim) w2' i2'
+      have r3 := runConstraintsF_sem ho (rcFuel + 1) (fun _ => False) _ (fun _ h => h) w2' i2'
       rw [h] at r3
       exact ⟨r3.1, (runConstraintsF_ok ord (rcFuel + 1) _ _ i2' h).inv, runConstraintsF_live ho (rcFuel + 1) _ _ w2' i2' h⟩
     · cases h
@@ -771,7 +778,7 @@ theorem unify_live {st st' : State} (w : WFS st) (hi : Inv st) {u v : Term} (h :
     obtain ⟨s2, e2, h⟩ := Res.bind_ok h
     cases h
     have l1 := runConstraintsF_live ho (rcFuel + 1) _ _ w0 i0 e1
-    have r1 := runConstraintsF_sem ho (rcFuel + 1) (fun _ => False) _ (fun _ h => h.elim) w0 i0
+    have r1 := runConstraintsF_sem ho (rcFuel + 1) (fun _ => False) _ (fun _ h => h) w0 i0
     rw [e1] at r1
     have i1 := (runConstraintsF_ok ord (rcFuel + 1) _ _ i0 e1).inv
     rw [processExtensionFd_eq] at e2
@@ -798,7 +805,7 @@ theorem postF_live {st st' : State} (w : WFS st) (hi : Inv st) (hl : Live st) (a
     have w0 : WFS { st with nextId := st.nextId + 1 } := w.same rfl rfl fun p hp => .inl hp
     exact runCstBody_live (runConstraintsF_ok ord rcFuel) (runConstraintsF_sem ho rcFuel) (runConstraintsF_live ho rcFuel)
       ord (runCst_selfLive (runConstraintsF_ok ord rcFuel) (runConstraintsF_sem ho rcFuel) (runConstraintsF_live ho rcFuel) ord 3)
-      w0 fr hok (fun p hp hd => hl p hp hd) h
+      w0 fr (CstOK.strict hok) (fun p hp hd => hl p hp hd) h
   | dom x d =>
     simp only [postF] at h
     unfold domFd at h
